@@ -489,6 +489,10 @@ def check_binding(F, struct, spec, b, classes):
             wterm = E.of(want)
             ok, _ = equal(got, wterm, N)
             desc = show(wterm)
+            hz_ = float_hazard(got, wterm) if ok and isinstance(got, tuple) else None
+            if hz_:
+                out.append((False, "foreign-constant", "%s.%s" % (struct, f), "%s::new initialises `%s` with %s: equal to the documented %s in real arithmetic only" % (struct, f, hz_, desc), loc_of(c["fn"]), {}))
+                continue
         if ok:
             out.append((True, "ctor", inst, "", loc_of(c["fn"]), {"init": desc}))
         else:
@@ -496,7 +500,7 @@ def check_binding(F, struct, spec, b, classes):
     # unbound fields must not be state the spec does not know
     bound = set(b.values())
     for f, cl in classes[struct].items():
-        if f not in bound and cl in ("STATE", "NESTED", "BUFFER"):
+        if f not in bound and cl in ("STATE", "NESTED", "BUFFER", "FOREIGN"):
             out.append((False, "state-shape", "%s.%s" % (struct, f), "%s has state field `%s` (%s) that the documented definition does not mention" % (struct, f, cl), loc_of(c["fn"]), {}))
     # ---- step functions
     for kind, fspec in spec["nexts"].items():
